@@ -140,15 +140,49 @@ CountedOf(st, a, target) == { c \in DOMAIN st.coins : st.coins[c].acct = a /\ Co
 LedgerT(st, a, target) ==
     LET S == CountedOf(st, a, target)
     IN  << SumV(st, { c \in S : st.coins[c].v > Dust }), SumV(st, { c \in S : st.coins[c].v <= Dust }) >>
-\* ... or the one the account-level query actually computes: it compares the SUM of each group of coins
-\* (grouped by whether the coin has Maturity confirmations) with Dust.  Both are accepted (relational);
-\* they coincide whenever a group holds a single coin, no dust, or dust of at most Dust in total.
+\* ... or the one the account-level query actually computes: it compares the SUM of each group of coins - grouped by
+\* whether the coin has Maturity confirmations and by its lock expiry height (lk: coin -> << owner, lock expiry >>,
+\* see Locking below) - with Dust.  Both are accepted (relational); they coincide whenever a group holds a single
+\* coin, no dust, or dust of at most Dust in total.
 Mature(st, c, target) == st.ttx[st.coins[c].tx].mined # NULL /\ target - st.ttx[st.coins[c].tx].mined >= Maturity
-LedgerTGrouped(st, a, target) ==
+LedgerTGrouped(st, a, target, lk) ==
     LET S == CountedOf(st, a, target)
-        g(k) == SumV(st, { c \in S : Mature(st, c, target) = k })
-    IN  << (IF g(TRUE) > Dust THEN g(TRUE) ELSE 0) + (IF g(FALSE) > Dust THEN g(FALSE) ELSE 0),
-           (IF g(TRUE) <= Dust THEN g(TRUE) ELSE 0) + (IF g(FALSE) <= Dust THEN g(FALSE) ELSE 0) >>
+        key(c) == << Mature(st, c, target), IF c \in DOMAIN lk THEN lk[c][2] ELSE NULL >>
+        keys == { key(c) : c \in S }
+        g(k) == SumV(st, { c \in S : key(c) = k })
+    IN  << FoldSet(LAMBDA k, acc : acc + (IF g(k) > Dust THEN g(k) ELSE 0), 0, keys),
+           FoldSet(LAMBDA k, acc : acc + (IF g(k) <= Dust THEN g(k) ELSE 0), 0, keys) >>
+
+----------------------------------------------------------------------------------------
+\* coins as proposal inputs (C08).  Transcribed from the rustdoc / SQL of get_spendable_transparent_outputs(_for_addresses),
+\* select_spendable_transparent_outputs (spendable_transparent_outputs_query), tx_unexpired_condition_minconf_0,
+\* spent_utxos_clause and locking.rs output_eligible_condition.  minconf: the confirmations the policy requires of a coin
+\* (the *untrusted* count - every coin is treated as untrusted - or 0 when the policy allows zero-conf shielding).
+
+\* the coin can be spent by a transaction built for height `target`: worth more than the marginal fee; its transaction mined
+\* with at least minconf confirmations - or, when none are required, also unmined but known not to have expired -; and no
+\* linked spender (a mined one, or a pending / observed one that has not expired) claims it
+Spendable(st, c, target, minconf) ==
+    LET r == st.ttx[st.coins[c].tx]
+    IN  /\ st.coins[c].v > Dust
+        /\ \/ (r.mined # NULL /\ r.mined < target /\ target - r.mined >= minconf)
+           \/ (minconf = 0 /\ r.expiry # NULL /\ (r.expiry = 0 \/ r.expiry >= target))
+        /\ \A lk \in st.links : lk[1] = c => ~Claims(st.ttx[lk[2]], target)
+
+\* lk: coin -> << owner, lock expiry height >>.  data_api/locking.rs: locked while expiry >= target; a locked output is
+\* selectable only through the lock of an owner the policy admits
+LockedC(lk, c, target) == c \in DOMAIN lk /\ lk[c][2] >= target
+AcquirableC(lk, c, owner, tp) == IF c \in DOMAIN lk THEN (lk[c][2] <= tp \/ lk[c][1] = owner) ELSE TRUE
+EligibleCoin(st, lk, c, target, minconf, admitted) ==
+    /\ c \in DOMAIN st.coins
+    /\ Spendable(st, c, target, minconf)
+    /\ (LockedC(lk, c, target) => lk[c][1] \in admitted)
+
+\* create_proposed_transactions stored transaction t (built for height `target`, expiry e, 0 = never) spending the coins S:
+\* a pending transaction; the spends are recorded at once
+CreateSpend(st, t, S, target, e) ==
+    [st EXCEPT !.ttx = Put(st.ttx, t, [mined |-> NULL, minobs |-> target, expiry |-> e]),
+               !.links = @ \cup { << c, t >> : c \in S }]
 
 RowOf(st, c) == [c |-> c, v |-> st.coins[c].v, acct |-> st.coins[c].acct, t |-> st.coins[c].tx,
                  mined |-> st.ttx[st.coins[c].tx].mined, minobs |-> st.ttx[st.coins[c].tx].minobs,
